@@ -92,6 +92,8 @@ struct Ctl {
 	skims: Vec<u64>,
 	next_intercept: usize,
 	shares: Vec<u64>,
+	defer: bool,
+	deferred: Vec<(lightning::ln::channelmanager::InterceptId, u64)>,
 	dest: PublicKey,
 }
 
@@ -165,6 +167,13 @@ fn pump(nodes: &[Node], ctl: &mut Ctl, log: &mut Vec<String>) {
 					Event::HTLCIntercepted { intercept_id, expected_outbound_amount_msat, .. } => {
 						// the part is identified by its size (arrival order depends on hash-map iteration)
 						let k = (0..ctl.shares.len()).min_by_key(|j| (ctl.shares[*j] as i64 - *expected_outbound_amount_msat as i64).abs()).unwrap_or(0);
+						if ctl.defer && k == 1 {
+							// the smaller part is held back at the intercepting node until after the cut
+							ctl.deferred.push((*intercept_id, *expected_outbound_amount_msat));
+							ctl.next_intercept += 1;
+							log.push(format!("ev{} HTLCIntercepted expected={} deferred", i, expected_outbound_amount_msat));
+							continue;
+						}
 						let amt = expected_outbound_amount_msat - ctl.skims.get(k).cloned().unwrap_or(0);
 						let r = nodes[i].node.forward_intercepted_htlc(*intercept_id, &ctl.chan_ids[k], ctl.dest, amt);
 						log.push(format!("ev{} HTLCIntercepted expected={} forwarded={} {:?}", i, expected_outbound_amount_msat, amt, r.is_ok()));
@@ -184,7 +193,15 @@ fn pump(nodes: &[Node], ctl: &mut Ctl, log: &mut Vec<String>) {
 const KINDS: [&str; 5] = ["underpay1", "underpay2", "keysend", "metadata", "mpp"];
 
 /// reload: 0 = never, 1 = while PaymentClaimable is pending, 2 = after it was handled
-fn run(kind: usize, seed: u64, reload: u8) -> Vec<String> {
+#[derive(Clone, Copy, Default)]
+struct Opts {
+	/// after the partial-MPP cut both runs re-apply `accept_underpaying_htlcs` to the recipient's channels
+	reapply: bool,
+	/// the final state also lists every channel's ChannelConfig
+	cfg_probe: bool,
+}
+
+fn run(kind: usize, seed: u64, reload: u8, partial: bool, opts: Opts) -> Vec<String> {
 	let mut rng = Rng(seed);
 	let chanmon_cfgs = create_chanmon_cfgs(3);
 	let node_cfgs = create_node_cfgs(3, &chanmon_cfgs);
@@ -192,6 +209,8 @@ fn run(kind: usize, seed: u64, reload: u8) -> Vec<String> {
 	let new_chain_monitor;
 	let persister2;
 	let new_chain_monitor2;
+	let persister3;
+	let new_chain_monitor3;
 	let max_in_flight_percent = 10;
 	let mut intercept_cfg = test_default_channel_config();
 	intercept_cfg.htlc_interception_flags = HTLCInterceptionFlags::ToInterceptSCIDs as u8;
@@ -204,6 +223,7 @@ fn run(kind: usize, seed: u64, reload: u8) -> Vec<String> {
 	let node_chanmgrs = create_node_chanmgrs(3, &node_cfgs, &cfgs);
 	let node_reloaded;
 	let node_reloaded2;
+	let node_reloaded3;
 	let mut nodes = create_network(3, &node_cfgs, &node_chanmgrs);
 	for n in nodes.iter() {
 		*n.connect_style.borrow_mut() = ConnectStyle::BestBlockFirst;
@@ -211,7 +231,7 @@ fn run(kind: usize, seed: u64, reload: u8) -> Vec<String> {
 	let ids: Vec<PublicKey> = nodes.iter().map(|n| n.node.get_our_node_id()).collect();
 	let mut log: Vec<String> = Vec::new();
 	let recipient = if underpay { 2 } else { 1 };
-	let mut ctl = Ctl { hold: Some(recipient), chan_ids: Vec::new(), skims: Vec::new(), next_intercept: 0, shares: Vec::new(), dest: ids[2] };
+	let mut ctl = Ctl { hold: Some(recipient), chan_ids: Vec::new(), skims: Vec::new(), next_intercept: 0, shares: Vec::new(), defer: partial, deferred: Vec::new(), dest: ids[2] };
 	let amt_msat: u64 = 900_000 + rng.below(50_000);
 	let preimage: PaymentPreimage;
 	match kind {
@@ -273,6 +293,48 @@ fn run(kind: usize, seed: u64, reload: u8) -> Vec<String> {
 	}
 	pump(&nodes, &mut ctl, &mut log);
 	let peers: Vec<usize> = (0..3).filter(|p| *p != recipient).collect();
+	if partial {
+		// ---- point 3: only the FIRST part of the MPP has reached the recipient (an incomplete set of
+		// claimable HTLCs is the only thing it holds); the second part arrives after the cut
+		let snapshot = if reload == 3 {
+			let mgr_bytes = nodes[recipient].node.encode();
+			let mut mons: Vec<Vec<u8>> = Vec::new();
+			for cid in nodes[recipient].chain_monitor.chain_monitor.list_monitors() {
+				mons.push(nodes[recipient].chain_monitor.chain_monitor.get_monitor(cid).unwrap().encode());
+			}
+			Some((mgr_bytes, mons))
+		} else {
+			None
+		};
+		for p in peers.iter() {
+			disconnect(&nodes, recipient, *p);
+		}
+		for n in nodes.iter() {
+			n.node.get_and_clear_pending_msg_events();
+		}
+		if let Some((mgr_bytes, mons)) = snapshot {
+			let refs: Vec<&[u8]> = mons.iter().map(|m| &m[..]).collect();
+			reload_node!(nodes[recipient], &mgr_bytes, &refs, persister3, new_chain_monitor3, node_reloaded3);
+		}
+		for p in peers.iter() {
+			reconnect(&nodes, recipient, *p);
+		}
+		if opts.reapply {
+			let upd = lightning::util::config::ChannelConfigUpdate { accept_underpaying_htlcs: Some(true), ..Default::default() };
+			let _ = nodes[recipient].node.update_partial_channel_config(&ids[1], &ctl.chan_ids, &upd);
+		}
+		pump(&nodes, &mut ctl, &mut log);
+		log.push("== second part".to_string());
+		ctl.defer = false;
+		let deferred: Vec<_> = ctl.deferred.drain(..).collect();
+		for (id, expected) in deferred {
+			let k = (0..ctl.shares.len()).min_by_key(|j| (ctl.shares[*j] as i64 - expected as i64).abs()).unwrap_or(0);
+			let amt = expected - ctl.skims.get(k).cloned().unwrap_or(0);
+			let r = nodes[1].node.forward_intercepted_htlc(id, &ctl.chan_ids[k], ctl.dest, amt);
+			log.push(format!("ev1 deferred HTLC forwarded={} {:?}", amt, r.is_ok()));
+		}
+		pump(&nodes, &mut ctl, &mut log);
+	}
 	// ---- point 1: the PaymentClaimable event is still pending inside the recipient's manager
 	for p in peers.iter() {
 		disconnect(&nodes, recipient, *p);
@@ -333,6 +395,13 @@ fn run(kind: usize, seed: u64, reload: u8) -> Vec<String> {
 	pump(&nodes, &mut ctl, &mut log);
 	log.push("== final state".to_string());
 	state_lines(&nodes, &mut log);
+	if opts.cfg_probe {
+		for (i, n) in nodes.iter().enumerate() {
+			let mut c: Vec<String> = n.node.list_channels().iter().map(|c| format!("cfg{} {} {:?}", i, h8(&c.channel_id.0), c.config)).collect();
+			c.sort();
+			log.extend(c);
+		}
+	}
 	for n in nodes.iter() {
 		n.node.get_and_clear_pending_events();
 		n.node.get_and_clear_pending_msg_events();
@@ -371,33 +440,57 @@ fn main() {
 		}
 	}));
 	let esc = |s: &str| s.replace('\\', "/").replace('"', "'").replace('\n', " ");
+	let report = |name: &str, point: u8, s: u64, a: &std::thread::Result<Vec<String>>, b: &std::thread::Result<Vec<String>>, need_claim: bool, pa: &str, pb: &str| {
+		let (ok, why, nobs, claimable) = match (a, b) {
+			(Ok(a), Ok(b)) => {
+				if dump {
+					for l in a.iter() { println!("A {}", l); }
+					for l in b.iter() { println!("B{} {}", point, l); }
+				}
+				let has_claimable = a.iter().any(|l| l.contains("PaymentClaimable")) && a.iter().any(|l| l.contains("PaymentClaimed"));
+				let d = (0..a.len().max(b.len())).find(|k| a.get(*k) != b.get(*k));
+				match d {
+					None if has_claimable || !need_claim => (true, String::new(), a.len(), has_claimable),
+					None => (false, "harness: the scenario did not produce a claimable and claimed payment".to_string(), a.len(), false),
+					Some(k) => (false, format!("the reloaded recipient behaves differently: without reload `{}` / with reload `{}`", a.get(k).map(|s| s.as_str()).unwrap_or("<end>"), b.get(k).map(|s| s.as_str()).unwrap_or("<end>")), a.len(), has_claimable),
+				}
+			},
+			_ => (false, format!("a run panicked: {} {}", pa, pb), 0, false),
+		};
+		println!(
+			"R {{\"kind\": \"recv\", \"scenario\": \"{}\", \"reload_point\": {}, \"key\": \"recv:{}:p{}\", \"seed\": {}, \"ok\": {}, \"observations\": {}, \"claimed\": {}, \"fails\": [{}]}}",
+			name, point, name, point, s, if ok { "true" } else { "false" }, nobs, claimable, if ok { String::new() } else { format!("\"{}\"", esc(&why.chars().take(900).collect::<String>())) }
+		);
+	};
 	for kind in 0..KINDS.len() {
 		let s = seed.wrapping_mul(0x9E37_79B9).wrapping_add(kind as u64);
-		let a = panic::catch_unwind(AssertUnwindSafe(|| run(kind, s, 0)));
+		let a = panic::catch_unwind(AssertUnwindSafe(|| run(kind, s, 0, false, Opts::default())));
 		let pa = std::mem::take(&mut *LAST_PANIC.lock().unwrap());
 		for point in [1u8, 2] {
-			let b = panic::catch_unwind(AssertUnwindSafe(|| run(kind, s, point)));
+			let b = panic::catch_unwind(AssertUnwindSafe(|| run(kind, s, point, false, Opts::default())));
 			let pb = std::mem::take(&mut *LAST_PANIC.lock().unwrap());
-			let (ok, why, nobs, claimable) = match (&a, &b) {
-				(Ok(a), Ok(b)) => {
-					if dump {
-						for l in a.iter() { println!("A {}", l); }
-						for l in b.iter() { println!("B{} {}", point, l); }
-					}
-					let has_claimable = a.iter().any(|l| l.contains("PaymentClaimable")) && a.iter().any(|l| l.contains("PaymentClaimed"));
-					let d = (0..a.len().max(b.len())).find(|k| a.get(*k) != b.get(*k));
-					match d {
-						None if has_claimable => (true, String::new(), a.len(), true),
-						None => (false, "harness: the scenario did not produce a claimable and claimed payment".to_string(), a.len(), false),
-						Some(k) => (false, format!("the reloaded recipient behaves differently: without reload `{}` / with reload `{}`", a.get(k).map(|s| s.as_str()).unwrap_or("<end>"), b.get(k).map(|s| s.as_str()).unwrap_or("<end>")), a.len(), has_claimable),
-					}
-				},
-				_ => (false, format!("a run panicked: {} {}", pa, pb), 0, false),
-			};
-			println!(
-				"R {{\"kind\": \"recv\", \"scenario\": \"{}\", \"reload_point\": {}, \"seed\": {}, \"ok\": {}, \"observations\": {}, \"claimed\": {}, \"fails\": [{}]}}",
-				KINDS[kind], point, s, if ok { "true" } else { "false" }, nobs, claimable, if ok { String::new() } else { format!("\"{}\"", esc(&why.chars().take(900).collect::<String>())) }
-			);
+			report(KINDS[kind], point, s, &a, &b, true, &pa, &pb);
+		}
+		if kind == 1 {
+			// point 3: reload while only the first MPP part has arrived; point 4: the same with the recipient's
+			// per-channel accept_underpaying_htlcs re-applied after the cut in BOTH runs
+			for (point, reapply) in [(3u8, false), (4u8, true)] {
+				let o = Opts { reapply, cfg_probe: false };
+				let a3 = panic::catch_unwind(AssertUnwindSafe(|| run(kind, s, 0, true, o)));
+				let pa3 = std::mem::take(&mut *LAST_PANIC.lock().unwrap());
+				let b3 = panic::catch_unwind(AssertUnwindSafe(|| run(kind, s, 3, true, o)));
+				let pb3 = std::mem::take(&mut *LAST_PANIC.lock().unwrap());
+				report(KINDS[kind], point, s, &a3, &b3, true, &pa3, &pb3);
+			}
+		}
+		if kind == 0 {
+			// the per-channel configuration itself
+			let o = Opts { reapply: false, cfg_probe: true };
+			let ac = panic::catch_unwind(AssertUnwindSafe(|| run(kind, s, 0, false, o)));
+			let pac = std::mem::take(&mut *LAST_PANIC.lock().unwrap());
+			let bc = panic::catch_unwind(AssertUnwindSafe(|| run(kind, s, 2, false, o)));
+			let pbc = std::mem::take(&mut *LAST_PANIC.lock().unwrap());
+			report("channel_config", 2, s, &ac, &bc, false, &pac, &pbc);
 		}
 	}
 }
